@@ -446,6 +446,15 @@ func f6Definitions() []BashCase {
 		"sibling-block-locals":       {def("x", il(1)), If{Branches: []IfBranch{{cmp("==", vr("x"), il(1)), []Stmt{def("t", il(10)), pr(vr("t"))}}}, HasElse: true, Else: []Stmt{def("t", il(20)), pr(vr("t"))}}, ifs(cmp("==", vr("x"), il(1)), def("t", sl("again")), pr(vr("t"))), forUp("k", 2, def("t", bin("*", vr("k"), il(3))), pr(vr("t")))},
 		"nested-loop-var-after-inner": {forUp("i", 2, forUp("j", 2, pr(vr("i"), vr("j"))), forUp("j", 1, pr(sl("again"), vr("j"))))},
 		"loop-var-in-two-functions":  {fn("fa", nil, []Type{TInt}, def("t", il(0)), forUp("i", 3, OpAssign{"t", "+", vr("i")}), ret(vr("t"))), fn("fb", nil, []Type{TInt}, def("t", il(0)), forUp("i", 4, OpAssign{"t", "+", vr("i")}), forUp("i", 2, OpAssign{"t", "+", il(100)}), ret(vr("t"))), pr(call("fa"), call("fb"))},
+		// tuple assignments of plain variables (old values on the right)
+		"swap-and-rotate": {def("a", il(1)), def("b", il(2)), def("c", il(3)), Assign{[]string{"a", "b"}, []Expr{vr("b"), vr("a")}}, pr(vr("a"), vr("b")), Assign{[]string{"a", "b", "c"}, []Expr{vr("b"), vr("c"), vr("a")}}, pr(vr("a"), vr("b"), vr("c")), def("s", sl("x")), def("t", sl("y")), Assign{[]string{"s", "t"}, []Expr{vr("t"), vr("s")}}, pr(vr("s"), vr("t")), def("p", bl(true)), def("q", bl(false)), Assign{[]string{"p", "q"}, []Expr{vr("q"), vr("p")}}, pr(vr("p"), vr("q")), forUp("i", 3, Assign{[]string{"a", "b"}, []Expr{vr("b"), bin("+", vr("a"), vr("b"))}}), pr(vr("a"), vr("b"))},
+		// empty branches and cases end the chain like any other branch
+		"empty-else-if-taken":  {def("x", il(2)), If{Branches: []IfBranch{{cmp("==", vr("x"), il(1)), []Stmt{pr(sl("one"))}}, {cmp("==", vr("x"), il(2)), []Stmt{}}, {cmp("==", vr("x"), il(2)), []Stmt{pr(sl("second two"))}}}, HasElse: true, Else: []Stmt{pr(sl("other"))}}, pr(sl("end"))},
+		"empty-if-taken":       {def("x", il(1)), If{Branches: []IfBranch{{cmp("==", vr("x"), il(1)), []Stmt{}}, {cmp(">", vr("x"), il(0)), []Stmt{pr(sl("positive"))}}}, HasElse: true, Else: []Stmt{pr(sl("other"))}}, pr(sl("end"))},
+		"empty-case-taken":     {def("x", il(2)), Switch{Tag: vr("x"), Cases: []SwitchCase{{E: il(1), Body: []Stmt{pr(sl("one"))}}, {E: il(2), Body: []Stmt{}}, {E: il(3), Body: []Stmt{pr(sl("three"))}}, {Default: true, Body: []Stmt{pr(sl("default"))}}}}, Switch{Cases: []SwitchCase{{E: cmp("==", vr("x"), il(2)), Body: []Stmt{}}, {Default: true, Body: []Stmt{pr(sl("default 2"))}}}}, forUp("i", 4, Switch{Tag: vr("i"), Cases: []SwitchCase{{E: il(0), Body: []Stmt{pr(sl("zero"))}}, {E: il(1), Body: []Stmt{}}, {E: il(2), Body: []Stmt{}}, {Default: true, Body: []Stmt{pr(sl("many"), vr("i"))}}}}), pr(sl("end"))},
+		"empty-else":           {def("x", il(5)), If{Branches: []IfBranch{{cmp("==", vr("x"), il(1)), []Stmt{pr(sl("one"))}}}, HasElse: true, Else: []Stmt{}}, pr(sl("end"))},
+		// print: one blank between operands, whatever they are
+		"print-empty-operands": {def("e", sl("")), pr(sl("a"), sl(""), sl("b")), pr(sl(""), sl("lead")), pr(sl("trail"), sl("")), pr(sl(""), sl("")), pr(sl("")), pr(vr("e"), sl("x"), vr("e")), pr(sl(" "), sl(" ")), pr(il(1), sl(""), bl(true), sl(""), il(-2)), pr()},
 		"defaults": {VarDecl{Names: []string{"a"}, Type: TInt}, VarDecl{Names: []string{"b"}, Type: TBool}, VarDecl{Names: []string{"s"}, Type: TString}, VarDecl{Names: []string{"e"}, Type: TString, ErrTy: true},
 			pr(vr("a"), vr("b"), sl("["+""), vr("s"), sl("]"), cmp("==", vr("e"), NilLit{}), cmp("==", vr("s"), sl("")))},
 		"multi-default":              {VarDecl{Names: []string{"a", "b", "c"}, Type: TInt}, VarDecl{Names: []string{"p", "q"}, Type: TBool}, pr(vr("a"), vr("b"), vr("c"), vr("p"), vr("q"))},
